@@ -1101,7 +1101,54 @@ def rule_index(ctx):
                     r.ok(construct='setitem:const', sample='`%s`' % txt)
     else:
         r.bad(Finding('C13.index', _f(s_), 'prefix:%s' % got, '__setitem__ index prefixes are %s, expected %s' % (got, want), s_.file, s_.lineno))
-    r.floor = 4
+    # a Taylor-polynomial right-hand side of lower rank: NumPy aligns the *trailing* array axes, so unit axes have to be
+    # inserted right after (D, P) - which is what the shared helper _broadcast_arrays does
+    rhs_name = s_.value_params()[1] if len(s_.value_params()) > 1 else 'rhs'
+    bc = [c for c in walk_no_nested(s_.node) if isinstance(c, ast.Call) and (dotted_name(c.func) or '').endswith('._broadcast_arrays')
+          and len(c.args) == 2 and norm(c.args[1]) == rhs_name + '.data']
+    resh = [c for c in walk_no_nested(s_.node) if isinstance(c, ast.Call) and isinstance(c.func, ast.Attribute) and c.func.attr == 'reshape' and c.args]
+    if bc:
+        r.ok(construct='setitem:align', sample='__setitem__ aligns a polynomial right-hand side with `%s`' % norm(bc[0])[:80])
+    elif resh:
+        verdicts = []
+        for c in resh:
+            shp = c.args[0]
+            parts = []
+
+            def flat_(e):
+                if isinstance(e, ast.BinOp) and isinstance(e.op, ast.Add):
+                    flat_(e.left)
+                    flat_(e.right)
+                else:
+                    parts.append(e)
+            flat_(shp)
+            kinds = []
+            for e in parts:
+                t_ = norm(e)
+                if isinstance(e, ast.BinOp) and isinstance(e.op, ast.Mult) and any(norm(x) in ('(1,)', '[1]') for x in (e.left, e.right)):
+                    kinds.append('ones')
+                elif t_.endswith('.shape[:2]'):
+                    kinds.append('DP')
+                elif t_.endswith('.shape[2:]'):
+                    kinds.append('tail')
+                elif t_.endswith('.shape'):
+                    kinds.append('full')
+                else:
+                    kinds.append('?')
+            if 'ones' in kinds:
+                verdicts.append((kinds, c))
+        good = [v for v in verdicts if v[0] == ['DP', 'ones', 'tail']]
+        wrong = [v for v in verdicts if v[0] and v[0][-1] == 'ones' and v[0][0] in ('full', 'DP')]
+        if wrong:
+            r.bad(Finding('C13.index', _f(s_), 'align', '__setitem__ pads a lower-rank polynomial right-hand side with unit axes at the *end* (`%s`): NumPy '
+                                                      'broadcasting pads in front, so the data is spread along the wrong axis' % norm(wrong[0][1])[:80], s_.file, wrong[0][1].lineno))
+        elif good:
+            r.ok(construct='setitem:align', sample='__setitem__ inserts unit axes after (D, P): `%s`' % norm(good[0][1])[:80])
+        else:
+            r.unknown(s_.site(), 'alignment of a lower-rank polynomial right-hand side not recognised')
+    else:
+        r.unknown(s_.site(), '__setitem__ neither calls _broadcast_arrays nor reshapes the right-hand side: alignment of a lower-rank polynomial not recognised')
+    r.floor = 5
     return r
 
 
@@ -1377,6 +1424,63 @@ def rule_shape_arg(ctx):
         else:
             r.unknown(fi.site(wraps[0]), 'scalar-shape guard `%s` not recognised' % norm(wraps[0].test))
     r.floor = 2
+    return r
+
+
+def rule_transpose_axes(ctx):
+    r = RuleResult('C13.transpose-axes', 'the transpose kernel permutes the coefficient array like numpy.transpose permutes each slice: the two leading '
+                                         '(D, P) axes stay, *all* remaining axes are reversed - decided by evaluating the axes expression for every rank 2..6 '
+                                         '(integer/shape level only)')
+    from .indexenum import returned_expression, NotEvaluable
+    m = ctx.model
+    ci = m.cls('RawAlgorithmsMixIn')
+    fi = ci.methods.get('_transpose') if ci else None
+    if fi is None:
+        r.unknown(ALGO + ':_transpose', 'kernel vanished')
+        return r
+    a = fi.value_params()[0]
+    axes_par = fi.value_params()[1] if len(fi.value_params()) > 1 else None
+    for n in range(2, 7):
+        facts = {'%s.ndim' % a: n, 'len(%s.shape)' % a: n, 'numpy.ndim(%s)' % a: n, 'len(numpy.shape(%s))' % a: n}
+        ret, ie = returned_expression(m, fi, {}, facts)
+        want = (0, 1) + tuple(range(2, n))[::-1]
+        key = 'rank%d' % (n - 2)
+        if ret is None or ret.value is None:
+            r.unknown(fi.site(), 'no return reached for data rank %d (%s)' % (n, (ie.unknown or ['?'])[0]))
+            continue
+        v = ret.value
+        perm = None
+        try:
+            d = dotted_name(v.func) if isinstance(v, ast.Call) else None
+            if isinstance(v, ast.Call) and d in ('numpy.transpose',) and v.args and norm(v.args[0]) == a:
+                ax = v.args[1] if len(v.args) > 1 else next((k.value for k in v.keywords if k.arg == 'axes'), None)
+                perm = tuple(range(n))[::-1] if ax is None else tuple(ie.ev(ax))
+            elif isinstance(v, ast.Call) and isinstance(v.func, ast.Attribute) and v.func.attr == 'transpose' and norm(v.func.value) == a:
+                if len(v.args) == 1:
+                    perm = tuple(ie.ev(v.args[0]))
+                elif v.args:
+                    perm = tuple(ie.ev(x) for x in v.args)
+                else:
+                    perm = tuple(range(n))[::-1]
+            elif isinstance(v, ast.Call) and d == 'numpy.swapaxes' and len(v.args) == 3 and norm(v.args[0]) == a:
+                i, j = ie.ev(v.args[1]) % n, ie.ev(v.args[2]) % n
+                pl = list(range(n))
+                pl[i], pl[j] = pl[j], pl[i]
+                perm = tuple(pl)
+            elif isinstance(v, ast.Call) and d == 'numpy.moveaxis':
+                perm = None
+            elif norm(v) in (a, a + '[...]', a + '[:]'):
+                perm = tuple(range(n))
+        except (NotEvaluable, TypeError, ValueError):
+            perm = None
+        if perm is None:
+            r.unknown(fi.site(ret), 'returned expression `%s` for data rank %d not understood as an axis permutation' % (norm(v)[:60], n))
+        elif perm == want:
+            r.ok(construct=key, nontrivial=True, sample='_transpose, data rank %d: `%s` permutes axes %s' % (n, norm(v)[:60], perm))
+        else:
+            r.bad(Finding('C13.transpose-axes', _f(fi), key, '_transpose permutes the axes of rank-%d data as %s, numpy.transpose of each (D,P) slice needs %s: `%s`'
+                          % (n, perm, want, norm(v)[:70]), fi.file, ret.lineno))
+    r.floor = 5
     return r
 
 
